@@ -56,7 +56,8 @@ def operands():
     return ops
 
 
-BINARY = ["__add__", "__radd__", "__sub__", "__rsub__", "__mul__", "__rmul__", "__truediv__", "__rtruediv__", "__eq__", "__lt__", "__gt__", "__round__"]
+BINARY = ["__add__", "__radd__", "__sub__", "__rsub__", "__mul__", "__rmul__", "__truediv__", "__rtruediv__", "__eq__", "__lt__", "__gt__", "__round__",
+          "np_compared_with:max", "np_compared_with:min", "compare_with_and_return_max"]
 UNARY = ["ceil", "abs", "max", "min", "sum", "mean", "copy", "__neg__", "__copy__"]
 
 
@@ -177,7 +178,8 @@ def evaluate(method, names):
             pass
     snap = [real_view(a, units) if not isinstance(a, (int, str)) else None for a in real_args]
     try:
-        r = getattr(real_args[0], method)(*real_args[1:])
+        mname, _, extra = method.partition(":")          # "np_compared_with:max" -> method with a literal extra argument
+        r = getattr(real_args[0], mname)(*real_args[1:], *([extra] if extra else []))
         if r is NotImplemented: real = ("raise", "TypeError")
         else: real = ("ret", real_view(r, units))
     except Exception as ex:
@@ -197,7 +199,9 @@ def evaluate(method, names):
     I.concrete_ticks = TICKS
     sargs = [to_sym(I, ops[n](), units, f"arg{i}") for i, n in enumerate(names)]
     kind = sargs[0].kind
-    spec = X.SPECS.get((kind, method))
+    mname, _, extra = method.partition(":")
+    if extra: sargs = sargs + [extra]
+    spec = X.SPECS.get((kind, mname))
     if spec is None:
         con = ("raise", "TypeError")
     else:
